@@ -47,7 +47,8 @@ ONESHOT = ("gen", "iter")
 SEMS = ("ident", "grp", "raise2")
 # syncblock: the key first makes a plain synchronous call of another (non-blocking) @asynq function - a nested wait that
 # must not flush anything - and then blocks on its batch item
-BLOCKS = ("plain", "block", "syncblock")
+# fmeth: the key is a bound @asynq method of an object whose truth value is False (empty container-like object)
+BLOCKS = ("plain", "block", "syncblock", "fmeth")
 HELPERS = ("amap", "afilter", "afilterfalse", "asift", "asorted", "amax", "amin")
 CHUNK = {"amap": 60, "afilter": 60, "afilterfalse": 60, "asift": 60, "asorted": 25, "amax": 25, "amin": 25}
 RETRY_LETTERS = "LSMX"
@@ -214,6 +215,7 @@ class _Runtime(object):
             self.akey[(name, "plain")] = self._plain(deco, f)
             self.akey[(name, "block")] = self._blocking(deco, f, CItem)
             self.akey[(name, "syncblock")] = self._blocking(deco, f, CItem, True)
+            self.akey[(name, "fmeth")] = self._falsy_method(deco, f)
 
         @deco()
         def outer(helper, args, kwargs):
@@ -284,6 +286,23 @@ class _Runtime(object):
             return f(x)
 
         return key
+
+    def _falsy_method(self, deco, f):
+        rt = self
+
+        class EmptyHost(object):
+            def __len__(self):
+                return 0
+
+            @deco()
+            def key(self, x):
+                assert isinstance(self, EmptyHost), "bound instance lost"
+                rt.calls.append(x)
+                return f(x)
+
+        host = EmptyHost()
+        self.keep_hosts = getattr(self, "keep_hosts", []) + [host]
+        return host.key
 
     def _blocking(self, deco, f, CItem, sync_first=False):
         rt = self
